@@ -221,10 +221,13 @@ def cases(tier):
                 add(None, tf if nf == 0 or tf == "hh:mm:ss" else "hh:mm:ss", nf)
         for df in DATE_FORMS[:8]:
             for tf in TIME_FORMS:
+                # ISO 8601 does not mix formats: extended dates (with '-') go with extended times (with ':'), basic with basic
+                if ("-" in df) != (":" in tf) and tf != "hh":
+                    continue
                 for nf, fs in ((0, "."), (3, ","), (9, ".")):
                     if nf and tf in ("hh", "hh:mm", "hhmm"):
                         continue
-                    for tzf in (None, "Z", "-hhmm", "+hh:mm"):
+                    for tzf in ((None, "Z", "+hh:mm", "-hh") if "-" in df else (None, "Z", "-hhmm", "+hh")):
                         add(df, tf, nf, fs, tzf, "T")
                 add(df, tf, 0, ".", "+hh", " ")
     for how in ("isoformat", "str", "iso8601", "rfc3339", "atom", "w3c"):
